@@ -29,7 +29,23 @@ func c14Reach(n int, succ [][]bool, root int, removed int) []bool {
 	return seen
 }
 
+// c14DomSampled: graph number k of a fixed pseudo-random family with n
+// blocks: every block gets 0-2 successors drawn uniformly (a linear
+// congruential sequence instead of forking); block i+1 is additionally made a
+// successor of some earlier block so that most graphs are connected.
+func c14DomSampled(n, count int) {
+	state := uint64(vchoose(count))*0x9E3779B97F4A7C15 + 12345
+	c14DomWith(n, false, 2, func(m int) int {
+		state = state*6364136223846793005 + 1442695040888963407
+		return int((state >> 33) % uint64(m))
+	})
+}
+
 func c14Dom(n int, withRecover bool, maxOut int) {
+	c14DomWith(n, withRecover, maxOut, nil)
+}
+
+func c14DomWith(n int, withRecover bool, maxOut int, draw func(int) int) {
 	fn := &Function{Prog: &Program{}}
 	blocks := make([]*BasicBlock, n)
 	for i := range blocks {
@@ -45,17 +61,40 @@ func c14Dom(n int, withRecover bool, maxOut int) {
 	for i := range succ {
 		succ[i] = make([]bool, n)
 	}
-	for i := 0; i < n; i++ {
-		out := 0
-		for j := 1; j < n; j++ { // the entry block has no predecessors
-			if j == rec {
-				continue // nor has the recover block
+	addEdge := func(i, j int) {
+		if succ[i][j] {
+			return
+		}
+		succ[i][j] = true
+		blocks[i].Succs = append(blocks[i].Succs, blocks[j])
+		blocks[j].Preds = append(blocks[j].Preds, blocks[i])
+	}
+	if draw != nil {
+		// a spanning structure first (block j hangs off an earlier block with a
+		// free slot), then a second successor for about half of the blocks
+		for j := 1; j < n; j++ {
+			i := draw(j)
+			for len(blocks[i].Succs) >= maxOut {
+				i = (i + 1) % j
 			}
-			if out < maxOut && nondetBool() {
-				succ[i][j] = true
-				out++
-				blocks[i].Succs = append(blocks[i].Succs, blocks[j])
-				blocks[j].Preds = append(blocks[j].Preds, blocks[i])
+			addEdge(i, j)
+		}
+		for i := 0; i < n; i++ {
+			if len(blocks[i].Succs) < maxOut && draw(2) == 0 {
+				addEdge(i, 1+draw(n-1))
+			}
+		}
+	} else {
+		for i := 0; i < n; i++ {
+			out := 0
+			for j := 1; j < n; j++ { // the entry block has no predecessors
+				if j == rec {
+					continue // nor has the recover block
+				}
+				if out < maxOut && nondetBool() {
+					out++
+					addEdge(i, j)
+				}
 			}
 		}
 	}
@@ -167,3 +206,6 @@ func Harness_C14_dom_n4_recover() { c14Dom(4, true, 4) }
 func Harness_C14_dom_n5_recover() { c14Dom(5, true, 2) }
 func Harness_C14_dom_n5()         { c14Dom(5, false, 2) }
 func Harness_C14_dom_n6()         { c14Dom(6, false, 2) }
+
+func Harness_C14_dom_n8_sampled()  { c14DomSampled(8, 400) }
+func Harness_C14_dom_n10_sampled() { c14DomSampled(10, 4000) }
